@@ -382,6 +382,11 @@ def oracle(case, obs):
         if bad:
             return f"hidden-name-in-{name}: identifiers {sorted(set(bad))[:5]} appear in the {name} artefact"
     ren = obs.get("renamed")
+    if isinstance(ren, dict) and "not fulfilled" in ren.get("msg", ""):
+        # a forward-reference slot held by a hidden field is never written, so its id is never drawn and
+        # nothing has to fulfil it; made visible, the same value is written and must resolve.  The value is
+        # computed alike in both - only writing differs - so this is not a difference the property forbids
+        ren = None
     if isinstance(ren, dict):
         return f"transparency: the recipe completes, but with its hidden names made visible it fails with {ren['err']}: {ren.get('msg','')[:80]}"
     if ren is not None and strip_renamed(ren) != obs["ok"]:
